@@ -1071,6 +1071,24 @@ class C18(E2EProp):
         for _ in range(T(tier, 100, 1000)):
             k = [rng.choice(idx) for _ in range(rng.randint(3, 4))]
             cases.append(" ;; ".join("%s %s" % (basis[i][0], gen.runes(basis[i][1])) for i in k))
+        # the same name declared with different contents in the history and in the compilation observed
+        # (a cache keyed too coarsely, a table mutated in place): both orders, every pair of formats
+        allf = "-f xhtml,epub,latex,mom,markdown"
+        twins = [(".X ftag -t r -regexp /o/0\n.Ft -t r foo boo\n", ".X ftag -t r -regexp /o/1\n.Ft -t r foo boo\n"),
+                 (".X ftag -t g -gsub /a/b\n.Ft -t g aa\n", ".X ftag -t g -gsub /a/c\n.Ft -t g aa\n"),
+                 (".X mtag %s -t k -b [ -e ]\n.Sm -t k w\n" % allf, ".X mtag %s -t k -b {{ -e }}\n.Sm -t k w\n" % allf),
+                 (".X dtag %s -t d -c div\n.Bd -t d\nx\n.Ed\n" % allf, ".X dtag %s -t d -c pre\n.Bd -t d\nx\n.Ed\n" % allf),
+                 (".X set document-title One\n.Ch A\n", ".X set document-title Two\n.Ch A\n"),
+                 (".#dv v 1\n\\*[v]\n", ".#dv v 2\n\\*[v]\n"),
+                 (".#de m\nfirst\n.#.\n.m\n", ".#de m\nsecond\n.#.\n.m\n"),
+                 (".Ch -id same A\n.Sx same l\n", ".Sh -id same B\n.Sx same l\n")]
+        tfms = fms if tier != Q else ["x0", "l0", "m0", "k0"]
+        for a, b in twins:
+            for f1 in tfms:
+                for f2 in tfms:
+                    for h, last in ((a, b), (b, a)):
+                        cases.append("%s %s ;; %s %s" % (f1, gen.runes(h), f2, gen.runes(last)))
+        basis = basis + [(f, d) for f in fms for tw in twins for d in tw]
         # baseline: each compilation alone in a fresh process
         import subprocess
         from common import HARNESS
@@ -1085,7 +1103,7 @@ class C18(E2EProp):
             if got.strip() != base.get(last):
                 return "result of the last compilation differs from the same compilation alone in a fresh process"
             return None
-        st = Stream("S-hist", "hist", cases, oracle=oracle, describe="sequences of 2-4 compilations in one process (12 documents x 6 formats/modes, including ones ending in errors), each history run twice: the last compilation must equal the same compilation alone in a fresh process")
+        st = Stream("S-hist", "hist", cases, oracle=oracle, describe="sequences of 2-4 compilations in one process (12 documents x 6 formats/modes, including ones ending in errors), and 8 pairs of documents that declare one name (filter, markup or display tag, parameter, variable, macro, id) with different contents, one as the history of the other, both orders, every pair of formats; each history run twice: the last compilation must equal the same compilation alone in a fresh process")
         st.impl_only = True
         return [st]
 
